@@ -96,6 +96,13 @@ def FaultSpent (s : State) : Prop := s.fault = 0 ∨ s.fault ≤ s.calls
 @[simp] theorem good_apiDoubleCheck : Facts.good.apiDoubleCheck = true := rfl
 @[simp] theorem good_runningChecksUID : Facts.good.runningChecksUID = true := rfl
 
+@[simp] theorem good_bindEnqueuesOnlyOnNotFound : Facts.good.bindEnqueuesOnlyOnNotFound = true := rfl
+@[simp] theorem good_finishedChecksPhaseOnly : Facts.good.finishedChecksPhaseOnly = true := rfl
+
+/-- with the facts of the current tree the code's `finished` is the phase test -/
+@[simp] theorem codeFinished_good (p : Pod) : codeFinished Facts.good p = p.finished := by
+  simp [codeFinished]
+
 /-! ### the apiserver call counter -/
 
 theorem api_calls_le (s : State) : s.calls ≤ s.api.1.calls := by
